@@ -36,7 +36,7 @@ def build(cls, text, kw):
     import cisco_acl
     from cisco_acl import Acl, AceGroup, AddrGroup, Ace, Remark, Address, AddressAg, Port, Protocol, Option, Wildcard
     if cls == "acls":
-        r = cisco_acl.acls(text, **{k: v for k, v in kw.items() if k != "indent"})
+        r = cisco_acl.acls(text, **{k: v for k, v in kw.items() if k not in ("indent", "note")})
         if len(r) != 1:
             raise ValueError(f"acls() returned {len(r)} lists")
         r[0].indent = kw.get("indent", "  ")
@@ -52,11 +52,127 @@ def build(cls, text, kw):
     return c(text, **kw)
 
 
+def _mutables(obj, seen=None, depth=0):
+    """identities of mutable objects reachable from obj (lists, dicts, library objects), the user note excluded"""
+    seen = set() if seen is None else seen
+    if depth > 6 or id(obj) in seen:
+        return seen
+    if isinstance(obj, (list, dict, set)):
+        seen.add(id(obj))
+        for x in (obj.values() if isinstance(obj, dict) else obj):
+            _mutables(x, seen, depth + 1)
+    elif type(obj).__module__.startswith("cisco_acl"):
+        seen.add(id(obj))
+        for k, v in vars(obj).items():
+            if k != "note":
+                _mutables(v, seen, depth + 1)
+    return seen
+
+
+def _mutate(cls, c):
+    """some in-place changes of a copy through its public attributes"""
+    name = type(c).__name__
+    if name == "Port":
+        c.items.append(9) if c.items is not None else None
+        c.ports.append(9)
+        c.line = "eq 9"
+    elif name == "Protocol":
+        c.number = 9
+    elif name == "Option":
+        c.flags.append("zz")
+        c.logs.append("log")
+        c.line = "fin"
+    elif name == "Wildcard":
+        c.line = "9.9.9.9 0.0.0.0"
+    elif name in ("Address", "AddressAg"):
+        c.items.append(type(c)("host 9.9.9.9", platform=c.platform))
+        c.line = "host 9.9.9.9"
+    elif name == "Remark":
+        c.text = "changed"
+        c.sequence = 77
+    elif name == "Ace":
+        c.srcaddr.line = "host 9.9.9.9"
+        c.option.flags.append("zz")
+        c.srcport.items.append(9)
+        c.sequence = 77
+        c.note = "changed"
+    elif name in ("AceGroup", "Acl"):
+        for x in c.items[:1]:
+            x.sequence = 77
+            if hasattr(x, "srcaddr"):
+                x.srcaddr.line = "host 9.9.9.9"
+        c.items.reverse()
+        if c.items:
+            c.items.pop()
+        if name == "Acl":
+            c.input.append("interface X")
+            c.name = "CHANGED"
+    elif name == "AddrGroup":
+        for x in c.items[:1]:
+            x.line = "host 9.9.9.9"
+        c.items.append(c.items[0])
+        c.name = "CHANGED"
+
+
+def _conv(cls, job, kw, o):
+    """obj.platform = other ; = original ; = other   (single objects; ACLs are converted inside histories)"""
+    plat = kw.get("platform", "ios")
+    r = dict(done=False, exc="", t1=[], back_exc="", t2=[], there_again_same_text=True, same_id=True, same_note=True)
+    if plat not in ("ios", "nxos") or cls in ("Acl", "AceGroup", "acls", "addrgroups"):
+        return r
+    r["done"] = True
+    to = "ios" if plat == "nxos" else "nxos"
+    uid, note = o.uuid, o.note
+    try:
+        o.platform = to
+        first = o.line
+        r["t1"] = parts_of(cls, first)
+        r["same_id"], r["same_note"] = o.uuid == uid, o.note == note
+    except Exception as ex:  # noqa
+        r["exc"] = "ValueError" if isinstance(ex, ValueError) else core.exc_name(ex)
+        return r
+    try:
+        o.platform = plat
+        r["t2"] = parts_of(cls, o.line)
+        o.platform = to
+        r["there_again_same_text"] = o.line == first
+        r["same_id"], r["same_note"] = r["same_id"] and o.uuid == uid, r["same_note"] and o.note == note
+    except Exception as ex:  # noqa
+        r["back_exc"] = core.exc_name(ex)
+    return r
+
+
+def _copy(cls, o):
+    r = dict(done=True, exc="", copy_same_text=True, copy_same_data=True, data_same_text=True, data_same_data=True, copy_new_id=True,
+             shared_mutables=0, source_unchanged_after_mutating_copy=True, copy_keeps_note=True)
+    try:
+        t, d = o.line, proj.digest(o)
+        c = o.copy()
+        r["copy_same_text"], r["copy_same_data"] = c.line == t, proj.digest(c) == d
+        r["copy_new_id"], r["copy_keeps_note"] = c.uuid != o.uuid, c.note == o.note
+        b = type(o)(**o.data())
+        r["data_same_text"], r["data_same_data"] = b.line == t, proj.digest(b) == d
+        r["shared_mutables"] = len(_mutables(o) & _mutables(c)) + len(_mutables(o) & _mutables(b))
+        for twin in (c, b):
+            try:
+                _mutate(cls, twin)
+            except Exception:  # noqa  a mutation the class refuses is fine; the source must be untouched either way
+                pass
+        r["source_unchanged_after_mutating_copy"] = (o.line == t and proj.digest(o) == d)
+    except Exception as ex:  # noqa
+        r["exc"] = core.exc_name(ex)
+    return r
+
+
 def exec_job(job):
     cls, kw = job["cls"], dict(job["kw"])
+    kw["note"] = "N1"
     e = dict(tid=job["tid"], i=0, act="FP", cls=cls, plat=kw.get("platform", "ios"), vmajor=job["vmajor"], proto=kw.get("protocol", ""),
              native=job["native"], inp=parts_of(cls, job["text"]), exc="", t1=[], re=dict(exc="", t=[], same_text=True, same_data=True),
-             re2=dict(exc="", t=[], same_text=True, same_data=True))
+             re2=dict(exc="", t=[], same_text=True, same_data=True),
+             conv=dict(done=False, exc="", t1=[], back_exc="", t2=[], there_again_same_text=True, same_id=True, same_note=True),
+             cp=dict(done=False, exc="", copy_same_text=True, copy_same_data=True, data_same_text=True, data_same_data=True, copy_new_id=True,
+                     shared_mutables=0, source_unchanged_after_mutating_copy=True, copy_keeps_note=True))
     try:
         o1 = build(cls, job["text"], kw)
         t1, d1 = o1.line, proj.digest(o1)
@@ -74,6 +190,13 @@ def exec_job(job):
         except Exception as ex:  # noqa
             e[key] = dict(exc=core.exc_name(ex), t=[], same_text=False, same_data=False)
             break
+    if job.get("extras", True):
+        try:
+            e["cp"] = _copy(cls, build(cls, job["text"], kw))
+            e["conv"] = _conv(cls, job, kw, build(cls, job["text"], kw))
+        except Exception as ex:  # noqa
+            e["cp"]["exc"] = "harness:" + core.exc_name(ex)
+            e["cp"]["done"] = True
     return [e]
 
 
@@ -162,8 +285,25 @@ def gen_jobs(rng, n):
     return jobs
 
 
+def object_level(rng, n, own_prefix):
+    """object-level jobs judged by Trace_C06; returns the verdicts whose clause starts with own_prefix (used by C02 and C16 too)"""
+    jobs = gen_jobs(rng, n)
+    ev_lists = core.pmap(exec_job, jobs)
+    events = [e for evs in ev_lists for e in evs]
+    verdicts, vstats = core.validate("Trace_C06", events)
+    by_tid = {j["tid"]: (j, evs) for j, evs in zip(jobs, ev_lists)}
+    out = []
+    for v in verdicts:
+        if not (v["clause"].startswith(own_prefix) or v["clause"].startswith("machinery")):
+            continue
+        j, evs = by_tid[v["tid"]]
+        out.append(dict(clause=v["clause"], features=dict(cls=j["cls"], plat=j["kw"].get("platform")), case=j, events=evs))
+    return out, jobs, events, vstats
+
+
 def run(tier, seed):
     rng = random.Random(seed * 295075153 + 6)
+    own_prefix = "C06."
     mcs = [core.mc("MC_AceText"), core.mc("MC_Names", workers=4), core.mc("MC_PortSem")]
     jobs = gen_jobs(rng, 6000 if tier == "quick" else 60000)
     ev_lists = core.pmap(exec_job, jobs)
@@ -172,8 +312,12 @@ def run(tier, seed):
     by_tid = {j["tid"]: (j, evs) for j, evs in zip(jobs, ev_lists)}
     out = []
     for v in verdicts:
+        if not (v["clause"].startswith(own_prefix) or v["clause"].startswith("machinery")):
+            continue
         j, evs = by_tid[v["tid"]]
         out.append(dict(clause=v["clause"], features=dict(cls=j["cls"], plat=j["kw"].get("platform")), case=j, events=evs))
+    if own_prefix != "C06.":
+        return out, jobs, events, vstats
     # ACE level: the C06.* clauses of Trace_C01 on the C01 input grammar
     rng2 = random.Random(seed * 122949829 + 61)
     n_ace = 4000 if tier == "quick" else 40000
